@@ -710,4 +710,105 @@ Proof.
     + rewrite Bf1. exact Sz4.
     + split; [exact HI'|]. rewrite Fr', St1, Ef. cbn [app]. rewrite <- app_assoc. reflexivity.
 Qed.
+
+(* ---------- the FIRST frame of a declared, still empty data set ---------- *)
+Theorem frame_first_keeps_inv : forall f s s' a,
+  Inv s -> MT (groups s) -> frames s = [] ->
+  lk_int0 (groups s) nm_ANALOG nm_USED = Some a -> a <> 0 -> 1 <= h_byframe (hdr s) ->
+  announced s f ->
+  nlen (fr_pts f) < 2147483648 -> a < 2147483648 -> a * h_byframe (hdr s) < two64 ->
+  api_frame f_key f_tosize f_div f_is_zero f None s = ROk tt s' ->
+  Inv s' /\ frames s' = [f].
+Proof.
+  intros f s s' a HI HM Ef Ha Ha0 Bf1 [An1 [An2 An3]] Sz2 Sz3 Sz4 H.
+  pose proof HI as HI0.
+  unfold Inv, inv_b in HI. set (r := inv_report_of s) in HI.
+  apply andb_prop in HI. destruct HI as [HI _]. apply andb_prop in HI. destruct HI as [HI I9]. apply andb_prop in HI. destruct HI as [HI _].
+  apply andb_prop in HI. destruct HI as [HI _]. apply andb_prop in HI. destruct HI as [HI _]. apply andb_prop in HI. destruct HI as [HI _].
+  apply andb_prop in HI. destruct HI as [HI _]. apply andb_prop in HI. destruct HI as [HI _]. apply andb_prop in HI. destruct HI as [I1 _].
+  unfold r, inv_report_of in I1, I9. cbn [r_points_hdr r_label_counts] in I1, I9. rewrite Ha in I9.
+  destruct (lk_int0 (groups s) nm_POINT nm_USED) as [u|] eqn:Eu; [|discriminate].
+  apply andb_prop in I9. destruct I9 as [I9 _]. apply andb_prop in I9. destruct I9 as [I9 _]. apply andb_prop in I9. destruct I9 as [I9 _].
+  apply andb_prop in I9. destruct I9 as [I9 _]. apply andb_prop in I9. destruct I9 as [I9 I9d]. apply andb_prop in I9. destruct I9 as [I9 _].
+  apply andb_prop in I9. destruct I9 as [I9a _].
+  assert (Pf : nlen (fr_pts f) = u).
+  { pose proof (lk_strs_count _ _ _ _ An1) as C. rewrite C in I9a. cbn [opt_eqb] in I9a. unfold nlen in *. rewrite map_length in I9a. lia. }
+  assert (Cf : forall sf, In sf (fr_subs f) -> nlen sf = a).
+  { intros sf Hin. pose proof (lk_strs_count _ _ _ _ (An3 sf Hin)) as C. rewrite C in I9d. cbn [opt_eqb] in I9d. unfold nlen in *. rewrite map_length in I9d. lia. }
+  assert (Fsub : fr_subs f <> []) by (intros E; rewrite E in An2; unfold nlen in An2; cbn [length] in An2; lia).
+  assert (Ff : filled f = true).
+  { unfold filled. destruct (fr_subs f) as [|x t]; [contradiction|]. unfold nlen. cbn [length]. rewrite Bool.andb_false_r. reflexivity. }
+  assert (P : put empty_frame (frames s) f None = Ok [f]) by (rewrite Ef; reflexivity).
+  split.
+  - apply (frame_call_keeps_inv f None s s' [f] f [] u a HI0 HM P Eu Ha Ha0 Bf1); try assumption; try reflexivity.
+    + unfold nan_of. destruct (fr_subs f) as [|sf0 t]; [contradiction|]. apply Cf. left. reflexivity.
+    + intros sf0 t E. apply An3. rewrite E. left. reflexivity.
+    + cbn [filter]. rewrite Ff. cbn [forallb]. rewrite andb_true_r. lia.
+    + cbn [filter]. rewrite Ff. cbn [forallb]. rewrite andb_true_r. lia.
+    + cbn [filter]. rewrite Ff. cbn [forallb]. rewrite andb_true_r. apply forallb_forall. intros sf Hin. specialize (Cf sf Hin). lia.
+    + lia.
+  - pose proof (api_frame_store f_key f_tosize f_div f_is_zero f None s s' ltac:(intros i E; discriminate) H) as St.
+    cbn [store_spec] in St. rewrite Ef in St. exact St.
+Qed.
+
+(* from the declared, empty object to the end of the recording *)
+Theorem recording_from_empty_keeps_inv : forall f fs s s' a,
+  Inv s -> MT (groups s) -> frames s = [] ->
+  lk_int0 (groups s) nm_ANALOG nm_USED = Some a -> a <> 0 -> 1 <= h_byframe (hdr s) ->
+  Forall (announced s) (f :: fs) ->
+  1 + nlen fs < 2147483648 -> nlen (fr_pts f) < 2147483648 -> a < 2147483648 -> a * h_byframe (hdr s) < two64 ->
+  run_frames (f :: fs) s = ROk tt s' ->
+  Inv s' /\ frames s' = f :: fs.
+Proof.
+  intros f fs s s' a HI HM Ef Ha Ha0 Bf1 An Sz1 Sz2 Sz3 Sz4 H.
+  apply Forall_cons_iff in An. destruct An as [Anf Ant].
+  cbn [run_frames] in H. destruct (api_frame f_key f_tosize f_div f_is_zero f None s) as [[] s1| |] eqn:E; try discriminate.
+  destruct (frame_first_keeps_inv f s s1 a HI HM Ef Ha Ha0 Bf1 Anf Sz2 Sz3 Sz4 E) as [HI1 St1].
+  (* what the remaining calls need: the parameters and the sub-frame count are those of s *)
+  destruct Anf as [An1 [An2 An3]].
+  assert (Fsub : fr_subs f <> []) by (intros X; rewrite X in An2; unfold nlen in An2; cbn [length] in An2; lia).
+  assert (Ff : filled f = true).
+  { unfold filled. destruct (fr_subs f) as [|x t]; [contradiction|]. unfold nlen. cbn [length]. rewrite Bool.andb_false_r. reflexivity. }
+  (* counts_agree for the store, as in the other proofs *)
+  assert (Q : exists u, lk_int0 (groups s) nm_POINT nm_USED = Some u /\ nlen (fr_pts f) = u /\ nan_of f = a).
+  { pose proof HI as HI0. unfold Inv, inv_b in HI0. set (r := inv_report_of s) in HI0.
+    apply andb_prop in HI0. destruct HI0 as [HI0 _]. apply andb_prop in HI0. destruct HI0 as [HI0 I9]. apply andb_prop in HI0. destruct HI0 as [HI0 _].
+    apply andb_prop in HI0. destruct HI0 as [HI0 _]. apply andb_prop in HI0. destruct HI0 as [HI0 _]. apply andb_prop in HI0. destruct HI0 as [HI0 _].
+    apply andb_prop in HI0. destruct HI0 as [HI0 _]. apply andb_prop in HI0. destruct HI0 as [HI0 _]. apply andb_prop in HI0. destruct HI0 as [I1 _].
+    unfold r, inv_report_of in I1, I9. cbn [r_points_hdr r_label_counts] in I1, I9. rewrite Ha in I9.
+    destruct (lk_int0 (groups s) nm_POINT nm_USED) as [u|]; [|discriminate]. exists u. split; [reflexivity|].
+    apply andb_prop in I9. destruct I9 as [I9 _]. apply andb_prop in I9. destruct I9 as [I9 _]. apply andb_prop in I9. destruct I9 as [I9 _].
+    apply andb_prop in I9. destruct I9 as [I9 _]. apply andb_prop in I9. destruct I9 as [I9 I9d]. apply andb_prop in I9. destruct I9 as [I9 _].
+    apply andb_prop in I9. destruct I9 as [I9a _]. split.
+    - pose proof (lk_strs_count _ _ _ _ An1) as C. rewrite C in I9a. cbn [opt_eqb] in I9a. unfold nlen in *. rewrite map_length in I9a. lia.
+    - unfold nan_of. destruct (fr_subs f) as [|sf0 t]; [contradiction|].
+      pose proof (lk_strs_count _ _ _ _ (An3 sf0 (or_introl eq_refl))) as C. rewrite C in I9d. cbn [opt_eqb] in I9d. unfold nlen in *. rewrite map_length in I9d. lia. }
+  destruct Q as [u [Eu [Pf Na]]].
+  destruct (lk_int0_r 0 _ _ _ _ Eu) as [vu [Rvu Evu]]. destruct (lk_int0_r 0 _ _ _ _ Ha) as [va [Rva Eva]].
+  assert (P : put empty_frame (frames s) f None = Ok [f]) by (rewrite Ef; reflexivity).
+  assert (CA : counts_agree (set_frames s [f])).
+  { unfold counts_agree. cbn [frames set_frames groups]. split; [exists vu; split; [exact Rvu|lia]|exists va; split; [exact Rva|lia]]. }
+  assert (Sm : forall fs'', put empty_frame (frames s) f None = Ok fs'' -> small_frames fs'').
+  { intros fs'' X. rewrite P in X. injection X as <-. unfold small_frames. split; [unfold nlen; cbn [length]; lia|]. split; [exact Sz2|rewrite Na; exact Sz3]. }
+  destruct (api_frame_counts f_key f_tosize f_div f_is_zero f_key_nt f_tosize_nt f None s s1 HM Sm E) as [HM1 _].
+  pose proof (api_frame_keeps_parameters f_key f_tosize f_div f_is_zero f None s s1 E
+                (fun fs'' X => ltac:(rewrite P in X; injection X as <-; exact CA))) as KL.
+  assert (NA : nm_ANALOG <> nm_POINT) by ne. assert (N1 : nm_LABELS <> nm_FRAMES) by ne.
+  assert (La1 : lk_int0 (groups s1) nm_ANALOG nm_USED = Some a).
+  { rewrite (lk_int0_ext (groups s) (groups s1) nm_ANALOG nm_USED (KL nm_ANALOG nm_USED (or_introl NA))). exact Ha. }
+  assert (Bf' : h_byframe (hdr s1) = h_byframe (hdr s)).
+  { pose proof HI1 as HI0. unfold Inv, inv_b in HI0. set (r := inv_report_of s1) in HI0.
+    apply andb_prop in HI0. destruct HI0 as [HI0 _]. apply andb_prop in HI0. destruct HI0 as [HI0 _]. apply andb_prop in HI0. destruct HI0 as [HI0 _].
+    apply andb_prop in HI0. destruct HI0 as [HI0 _]. apply andb_prop in HI0. destruct HI0 as [HI0 _]. apply andb_prop in HI0. destruct HI0 as [_ I5].
+    unfold r, inv_report_of in I5. cbn [r_subframes] in I5. rewrite St1 in I5. cbn [filter] in I5. rewrite Ff in I5. cbn [forallb] in I5.
+    apply andb_prop in I5. destruct I5 as [I5a _]. lia. }
+  destruct (frames_session_keeps_inv fs s1 s' f [] a HI1 HM1 St1 Fsub La1 Ha0) as [HI' Fr']; try assumption.
+  - apply Forall_forall. intros g Hg. rewrite Forall_forall in Ant. destruct (Ant g Hg) as [G1 [G2 G3]]. split; [|split].
+    + rewrite (lk_strs_ext (groups s) (groups s1) nm_POINT nm_LABELS (KL nm_POINT nm_LABELS (or_intror N1))). exact G1.
+    + rewrite Bf'. exact G2.
+    + intros sf Hin. rewrite (lk_strs_ext (groups s) (groups s1) nm_ANALOG nm_LABELS (KL nm_ANALOG nm_LABELS (or_introl NA))). exact (G3 sf Hin).
+  - rewrite St1. unfold nlen in *. cbn [length]. lia.
+  - rewrite Bf'. exact Sz4.
+  - split; [exact HI'|]. rewrite Fr', St1. reflexivity.
+Qed.
 End WithOps.
